@@ -36,4 +36,35 @@ theorem replaceAux_pair (a b : Char) (r : Str) (s : Str) :
 theorem replace2_eq (a b : Char) (r s : Str) : Pre.replace s [a, b] r = Http.replace2 a b r s := by
   simp [Pre.replace, replaceAux_pair]
 
+/-- `str(i)`: the prelude's (Lean's decimal printer) is the model's `intText` -/
+theorem strOfInt_eq (i : Int) : Pre.strOfInt i = Http.intText i := by
+  unfold Pre.strOfInt Http.intText Http.natText
+  cases i with
+  | ofNat n =>
+    show (toString n).toList = _
+    exact Nat.toList_repr
+  | negSucc n =>
+    show ("-" ++ toString (n+1)).toList = _
+    simp
+
+/-- `sep.join(words)`: the prelude's is the model's (`List.intercalate`) -/
+theorem join_intercalate (sep : String) (ws : List Str) :
+    Pre.join sep.toList ws = Http.join sep ws := by
+  unfold Http.join
+  induction ws with
+  | nil => rfl
+  | cons w t ih =>
+    cases t with
+    | nil => simp [Pre.join, List.intercalate]
+    | cons w2 t2 =>
+      simp only [Pre.join] at ih ⊢
+      rw [ih]
+      simp [List.intercalate, List.intersperse]
+
+/-- what `Range.to_header` prints for one `(begin, end)` pair -/
+def item (p : Int × Option Int) : Str :=
+  match p.2 with
+  | none => if p.1 ≥ 0 then Http.intText p.1 ++ ['-'] else Http.intText p.1
+  | some e => Http.intText p.1 ++ '-' :: Http.intText (e - 1)
+
 end Wz.PyFnsHttp
